@@ -68,4 +68,25 @@ def recvMessage {N : Type} (c : NumCodec N) (max : Option Nat) (bs : Bytes) : Re
     | .ok kvs => .message kvs rest
     | .error e => .rejected e rest
 
+/-! ### nesting depth (finding F-C20a: nothing bounds it) -/
+
+/-- `n` arrays inside each other around an empty array: the value of the text `[`ⁿ⁺¹ `]`ⁿ⁺¹. -/
+def nest {N : Type} : Nat → JValue N
+  | 0 => .arr []
+  | n + 1 => .arr [nest n]
+
+mutual
+  /-- Nesting depth of a value = depth of the recursion that destroys (or renders) it. -/
+  def depth {N : Type} : JValue N → Nat
+    | .arr xs => depthElems xs + 1
+    | .obj kvs => depthMembers kvs + 1
+    | _ => 0
+  def depthElems {N : Type} : List (JValue N) → Nat
+    | [] => 0
+    | x :: xs => Nat.max (depth x) (depthElems xs)
+  def depthMembers {N : Type} : List (List Char × JValue N) → Nat
+    | [] => 0
+    | (_, v) :: r => Nat.max (depth v) (depthMembers r)
+end
+
 end Icinga.C20
